@@ -389,6 +389,38 @@ def gen_case(rng, op, twins=False):
         c["fn"] = rng.choice(PREDS1)
     elif op in ("SetComprehension", "MakeFunction"):
         c["fn"] = rng.choice(BODIES1 if len(args) == 1 else BODIES2)
+    elif op == "Except" and c["kind"] == "typed" and rng.random() < 0.45:
+        # several clauses of ONE EXCEPT through the same top-level key: each clause must see the result of the
+        # previous one ([r EXCEPT !.n = @ + 1, !.n = @ + 2]; [f EXCEPT ![1].a = 10, ![1].b = 20])
+        rec = lambda: ["F", [[["s", k], g_small(rng)] for k in rng.sample(["a", "b", "key"], rng.randint(2, 3))]]
+        entry = lambda: rng.choice([g_small, lambda r: rec(), lambda r: ["T", [g_small(r), g_small(r)]]])(rng)
+        if rng.random() < 0.5:
+            src = ["F", [[k, entry()] for k in rng.sample([["s", "n"], ["s", "m"], ["n", 0], ["n", 5], ["S", [["n", 1], ["n", 2]]]], rng.randint(1, 3))]]
+            top, cur = rng.choice(src[1])
+        else:
+            src = ["T", [entry() for _ in range(rng.randint(1, 3))]]
+            i = rng.randrange(len(src[1]))
+            top, cur = ["n", i + 1], src[1][i]
+        args[:] = [src]
+        subs = []
+        for _ in range(rng.randint(2, 3)):
+            keys = [V.variant(rng, top)]
+            if cur[0] == "F" and rng.random() < 0.7:
+                keys.append(rng.choice(cur[1])[0])
+                val = rng.choice([["plus", ["n", rng.randint(1, 9)]], ["const", ["n", rng.randint(10, 20)]], ["tuple"], ["id"]])
+            elif cur[0] == "T" and rng.random() < 0.7:
+                keys.append(["n", rng.randint(1, len(cur[1]))])
+                val = rng.choice([["plus", ["n", rng.randint(1, 9)]], ["const", ["n", rng.randint(10, 20)]], ["tuple"]])
+            elif cur[0] == "n":
+                val = rng.choice([["plus", ["n", rng.randint(1, 9)]], ["mod", ["n", rng.randint(2, 5)]], ["plus", ["n", rng.randint(1, 9)]]])
+            else:
+                val = rng.choice([["tuple"], ["single"], ["id"]])
+            subs.append({"keys": keys, "val": val})
+        if rng.random() < 0.3:      # and one clause through another key, if there is one
+            others = [k for k, _ in src[1]] if src[0] == "F" else [["n", j + 1] for j in range(len(src[1]))]
+            subs.insert(rng.randint(0, len(subs)), {"keys": [rng.choice(others)], "val": ["tuple"]})
+        c["subs"] = subs
+        c["kind"] = "multiclause"
     elif op == "Except":
         subs = []
         for _ in range(rng.randint(1, 2)):
@@ -437,6 +469,55 @@ def boundary_grids():
     for x in MUL_OPERANDS:
         out.append({"op": "Neg", "args": [["n", x]], "kind": "grid"})
     return out
+
+
+def wrap_some(rng, v, p=0.3):
+    """the same value with causal (vector-clock) wrappers around some nodes; sets get a wrapped second copy of a
+    member, functions a wrapped second copy of a binding (same value), so that the builders must recognise them"""
+    t = v[0]
+    if t == "S":
+        ms = [wrap_some(rng, x, p) for x in v[1]]
+        if v[1] and rng.random() < 0.4:
+            # (builder.Set keeps the LAST of two Equal members: mostly put the wrapped copy after the plain one)
+            ms.insert(len(ms) if rng.random() < 0.7 else rng.randint(0, len(ms)), ["W", rng.choice(v[1])])
+        out = ["S", ms]
+    elif t == "T":
+        out = ["T", [wrap_some(rng, x, p) for x in v[1]]]
+    elif t == "F":
+        ps = [[wrap_some(rng, k, p), wrap_some(rng, x, p)] for k, x in v[1]]
+        if v[1] and rng.random() < 0.4:
+            eff = {}
+            for k, x in v[1]:
+                eff[V.sem(k)] = (k, x)          # the binding in force (a later binding of a key overrides earlier ones)
+            k, x = rng.choice(list(eff.values()))
+            ps.append([["W", k], x])
+        out = ["F", ps]
+    else:
+        out = list(v)
+    if rng.random() < p:
+        out = ["W", out]
+    return out
+
+
+def count_w(v):
+    t = v[0]
+    if t == "W":
+        return 1 + count_w(v[1])
+    if t in ("S", "T"):
+        return sum(count_w(x) for x in v[1])
+    if t == "F":
+        return sum(count_w(k) + count_w(x) for k, x in v[1])
+    return 0
+
+
+def add_wrapped(rng, c):
+    if not c["args"] or c["op"] in ("SelectSeq",):
+        return
+    w = [wrap_some(rng, a) for a in c["args"]]
+    if sum(count_w(x) for x in w) == 0:
+        i = rng.randrange(len(w))
+        w[i] = ["W", w[i]]
+    c["wargs"] = w
 
 
 def corpus():
@@ -567,14 +648,26 @@ def run(ctx):
             for i in range(per_op):
                 cases.append(gen_case(rng, op, twins=(i % 20 == 19)))
         cases += boundary_grids()
+        # a share of the calls is repeated on causally wrapped arguments: the wrapper must be invisible to every operator
+        wr = __import__("random").Random(ctx.seed + 7)
+        for i, c in enumerate(cases):
+            if c.get("kind") != "grid" and i % 3 == 0:
+                add_wrapped(wr, c)
     for i, c in enumerate(cases):
         c["id"] = i
-    rc, res, err = vlib.run_jsonl("c03", [{k: c[k] for k in ("id", "op", "args", "fn", "subs") if k in c} for c in cases], timeout=3000)
+    scratch = "/var/tmp/verif-%d-c03" % os.getpid()      # PGO_TRACE_DIR must be set at process start for WrapCausal to wrap
+    os.makedirs(scratch, exist_ok=True)
+    rc, res, err = vlib.run_jsonl("c03", [{k: c[k] for k in ("id", "op", "args", "wargs", "fn", "subs") if k in c} for c in cases], timeout=3000,
+                                  env={"PGO_TRACE_DIR": scratch})
+    import shutil as _sh
+    _sh.rmtree(scratch, ignore_errors=True)
     byid = {r["id"]: r for r in res}
     if rc != 0 or len(byid) != len(cases):
         ctx.breaks.append({"what": "harness c03 failed (rc=%d, %d/%d results)" % (rc, len(byid), len(cases)), "detail": err[-2000:]})
         return
     dist, classes, skipped = {}, {}, 0
+    wrapped_cases = 0
+    wrappers_seen = 0
     for c in cases:
         r = byid[c["id"]]
         c["_res"] = r
@@ -589,11 +682,38 @@ def run(ctx):
             skipped += 1
         if verdict == "fail":
             ctx.failures.append({"signature": sig_, "what": what, "case": {k: v for k, v in c.items() if not k.startswith("_")}, "obs": r})
+        # the same call on causally wrapped arguments must behave identically
+        if "wargs" in c and not infeasible(c):
+            wrapped_cases += 1
+            wsig = None
+            wrappers_seen += r.get("wrapped", 0)
+            if r.get("wrapped", 0) == 0:
+                pass        # every wrapped copy was replaced by a later plain duplicate: nothing wrapped reached the call
+            elif c["op"] in ("Choose", "SelectElement", "ToString"):
+                # results that legitimately depend on the iteration order (which a wrapped duplicate inserted elsewhere
+                # may change): the wrapped run must satisfy the reference semantics as the plain run does
+                spec_ = reference_outcome(c)
+                plain_ok = accepts(spec_, c["op"], c["args"], r["out"], r.get("val"), True)
+                if plain_ok and not accepts(spec_, c["op"], c["args"], r.get("wout"), r.get("wval"), True):
+                    wsig, wwhat = "causal-wrapper-changes-result:%s" % c["op"], "%s under causal wrappers: %s %s, not what TLA+ allows" % (
+                        c["op"], r.get("wout"), json.dumps(r.get("wval"))[:120])
+            elif r.get("wout") != r["out"]:
+                wsig, wwhat = "causal-wrapper-changes-result:%s" % c["op"], "%s: %s on plain arguments, %s (%s) on the same arguments under causal wrappers" % (
+                    c["op"], r["out"], r.get("wout"), r.get("wdetail"))
+            elif r["out"] == "ok" and V.sem(r["wval"]) != V.sem(r["val"]):
+                wsig, wwhat = "causal-wrapper-changes-result:%s" % c["op"], "%s = %s on plain arguments, %s on the same arguments under causal wrappers" % (
+                    c["op"], json.dumps(r["val"])[:120], json.dumps(r["wval"])[:120])
+            if wsig:
+                ctx.failures.append({"signature": wsig, "what": wwhat, "case": {k: v for k, v in c.items() if not k.startswith("_")}, "obs": r})
     ctx.extra["input_distribution"] = dist
     ctx.extra["operators"] = len(set(c["op"] for c in cases))
     ctx.extra["result_classes"] = len(classes)
     ctx.extra["per_operator_result_classes"] = {op: sorted(k.split("|")[1] for k in classes if k.startswith(op + "|")) for op in OPS}
     ctx.extra["oracle_skipped"] = skipped
+    ctx.extra["calls_repeated_under_causal_wrappers"] = wrapped_cases
+    ctx.extra["causal_wrappers_in_arguments"] = wrappers_seen
+    if wrapped_cases > 20 and wrappers_seen == 0:
+        ctx.breaks.append({"what": "tla.WrapCausal did not wrap anything: PGO_TRACE_DIR missing in the harness environment?"})
     ctx.samples = [{"op": c["op"], "args": c["args"], "fn": c.get("fn"), "go": c["_res"]} for c in cases[18:18 + 5]]
     tie(ctx, cases)
     spec_tie(ctx, cases)
